@@ -202,7 +202,12 @@ def apply_op(holder, op):
         n = op[0]
         if n == 'init':
             holder[0] = D.Dataset(dict((k, mk_array(a)) for k, a in op[1]))
-        elif n == 'set': ds[op[1]] = mk_array(op[2])
+        elif n == 'set':
+            # the dataset holds COPIES of the axes of the array it is given: the array itself stays as it is whatever happens to the
+            # dataset later (checked after every step, see _alias_check)
+            x_ = mk_array(op[2])
+            if len(holder) > 1: holder[1].append((x_, _axes_snap(x_)))
+            ds[op[1]] = x_
         elif n == 'del': del ds[op[1]]
         elif n == 'rename_axis': ds.axes[op[1]].name = op[2]
         elif n == 'var_rename_axis': dict.__getitem__(ds, op[1]).axes[op[2]].name = op[3]
@@ -221,15 +226,22 @@ def apply_op(holder, op):
         nm = type(e).__name__
         return nm if nm in EXN else 'OtherError'
 
+def _axes_snap(x):
+    return json.dumps([[ax.name, [lab_json(l) for l in ax.values], kind_of(ax.values), meta_json(ax.attrs)] for ax in x.axes], sort_keys=True, default=str)
+def _alias_check(holder):
+    for x_, s_ in holder[1]:
+        if _axes_snap(x_) != s_: return 'an array that was assigned to the dataset earlier changed with it (its axes are now %s, they were %s)' % (_axes_snap(x_)[:120], s_[:120])
+    return None
+
 def execute(c):
     # the history was executed while it was generated (the ops depend on the live state); replay it here so that
     # a replayed / corpus case is re-run against the current implementation
     D = da()
-    holder = [D.Dataset()]
+    holder = [D.Dataset(), []]
     out = []
     for st in c['hist']:
         status = apply_op(holder, st['op'])
-        out.append({'status': status, 'obs': observe(holder[0])})
+        out.append({'status': status, 'obs': observe(holder[0]), 'alias': _alias_check(holder)})
     return ('val', out)
 
 def cq_vobs(v):
@@ -266,6 +278,7 @@ def oracle(c, res):
     prev = {'dims': [], 'axes': [], 'vars': []}
     for k, (st, r) in enumerate(zip(c['hist'], res[1])):
         o = r['obs']
+        if r.get('alias'): return 'after step %d (%s): %s' % (k, st['op'][0], r['alias'])
         for v in o['vars']:
             if not all(v['shared']):
                 return 'after step %d (%s): variable %r does not share the dataset\'s axis object on every dimension (%r)' % (k, st['op'][0], v['key'], v['shared'])
